@@ -10,8 +10,9 @@ if not ids:
     ids = sorted(os.path.join(p, k) for p in os.listdir(S) if re.match(r"C\d\d$", p) for k in sorted(os.listdir(os.path.join(S, p))) if os.path.isdir(os.path.join(S, p, k)))
 resp = os.path.join(S, "RESULTS.json")
 results = json.load(open(resp)) if os.path.exists(resp) else {}
-def sh(cmd): return subprocess.run(cmd, shell=True, stdout=subprocess.PIPE, stderr=subprocess.STDOUT, text=True)
-assert sh("git -C /repo status --porcelain --untracked-files=no").stdout.strip() == "", "/repo has local modifications"
+TREE = os.environ.get("MUT_TREE", "/repo")   # default: apply to /repo itself and undo; MUT_TREE=<scratch worktree> leaves /repo alone (for runs in parallel with other work)
+def sh(cmd): return subprocess.run(cmd, shell=True, stdout=subprocess.PIPE, stderr=subprocess.STDOUT, text=True, errors="replace")
+assert sh("git -C %s status --porcelain --untracked-files=no" % TREE).stdout.strip() == "", "/repo has local modifications"
 for rel in ids:
     prop = rel.split("/")[0]; extra = sys.argv[1:]
     mp = os.path.join(S, rel, "meta.json")
@@ -20,16 +21,16 @@ for rel in ids:
     patch = os.path.join(S, rel, "patch.diff")
     if os.path.exists(os.path.join(S, rel, "patch_head.diff")):   # same change re-based onto the repaired tree
         patch = os.path.join(S, rel, "patch_head.diff")
-    r = sh("git -C /repo apply %s" % patch)
+    r = sh("git -C %s apply %s" % (TREE, patch))
     if r.returncode != 0:
-        print("%-7s patch does not apply to current /repo HEAD: %s" % (rel, r.stdout.strip()[:200])); sh("git -C /repo checkout -- ."); results[rel] = dict(applies=False); continue
+        print("%-7s patch does not apply to current /repo HEAD: %s" % (rel, r.stdout.strip()[:200])); sh("git -C %s checkout -- ." % TREE); results[rel] = dict(applies=False); continue
     try:
         t0 = time.time()
-        r = sh("cd %s && VERIF_EVIDENCE_DIR=%s/build/evidence_mutants ./vcheck %s %s" % (HERE, HERE, prop, tier))
+        r = sh("cd %s && VERIF_REPO=%s VERIF_EVIDENCE_DIR=%s/build/evidence_mutants ./vcheck %s %s" % (HERE, TREE, HERE, prop, tier))
         viol = [l for l in r.stdout.splitlines() if l.startswith("VIOLATION")]
         sig = [l.strip() for l in r.stdout.splitlines() if l.strip().startswith("signature=")]
         results[rel] = dict(applies=True, tier=tier, checked_with=prop, exit=r.returncode, detected=(r.returncode == 1 and bool(viol)), first=(sig[0][:300] if sig else ""), wall_s=round(time.time() - t0, 1))
         print("%-7s %-8s exit=%d %s  %s" % (rel, "DETECTED" if results[rel]["detected"] else "MISSED", r.returncode, "%.0fs" % (time.time() - t0), (sig[0][:160] if sig else r.stdout.strip().splitlines()[-1][:160] if r.stdout.strip() else "")), flush=True)
     finally:
-        sh("git -C /repo checkout -- .")
+        sh("git -C %s checkout -- ." % TREE)
     json.dump(results, open(resp, "w"), indent=1, sort_keys=True)
